@@ -142,7 +142,7 @@ def tlc(module, cfg=None, env=None, workers="auto", simulate=None, depth=None, s
     jopts = ["-XX:+UseParallelGC", "-Xmx" + xmx, "-Xss128m"]
     if dfs:
         jopts.append("-Dtlc2.tool.queue.IStateQueue=StateDeque")
-    cmd = ["java"] + jopts + ["-cp", JAVA_CP, "tlc2.TLC", "-metadir", meta, "-nowarning"]
+    cmd = ["java"] + jopts + ["-cp", JAVA_CP, "tlc2.TLC", "-metadir", meta, "-nowarning", "-noGenerateSpecTE"]
     cmd += ["-workers", str(workers)]
     if cfg:
         cmd += ["-config", cfg if cfg.endswith(".cfg") else cfg + ".cfg"]
